@@ -108,6 +108,8 @@ def check_print(s, where, cfg, part, cache):
     if verdict[2] > 1:
         part.nontrivial += 1
         part.c['split_prints'] += 1
+        if len(part.samples) < 2 and verdict[2] >= 3:
+            part.sample({'value': repr(s), 'placement': where, 'config': cfg, 'pieces': verdict[2], 'output': text})
 
 
 def judge(s, where, text):
